@@ -655,7 +655,7 @@ def run(ctx):
         "(none, -3..16; quick tier: model tie on every fourth length per file, rotating, oracle on all) x every primitive of both readers, observations (value, tell, bits_remaining, exception) checksummed "
         "and compared with the model; random op sequences for writer / BitstreamReader / decoder reader continuing after "
         "exceptions (every fourth writer sequence: block, seek back/forward while bits remain or past the end, then writes beyond |delta|); "
-        "structured read programs; integers up to 2^300; oracle incl. the seek-in-block law on writer and reader.  A case is non-trivial when at least one real bit is "
+        "structured read programs; integers up to 2^300; oracle incl. the seek-in-block law on writer and reader and the block-edge scenarios (aligned, 0 / 1..8 / negative bits left, then byte-string and wide primitives; also every 3rd-4th op sequence of the correspondence families).  A case is non-trivial when at least one real bit is "
         "read or written (distinct by input)." % exh_bits(ctx))
 
     def corr_fail(name, bad, describe):
@@ -700,7 +700,12 @@ def run(ctx):
     for i in range(ctx.pick(500, 8000)):
         big = i % 5 == 0
         f0 = [] if rng.random() < 0.6 else rand_file(rng, 4)
-        ops = gen_wops(rng, rng.randrange(1, 9 if big else 14), big=big) if i % 4 else gen_seekback_wops(rng)
+        if i % 4 == 0:
+            ops = gen_seekback_wops(rng)
+        elif i % 4 == 2:
+            ops = steps_to_wops(gen_edge_steps(rng))
+        else:
+            ops = gen_wops(rng, rng.randrange(1, 9 if big else 14), big=big)
         obs, final = run_w(f0, ops)
         wcases.append("(%s, [%s], (%s, %s))" % (clist(f0), "; ".join(c_wop(o) for o in ops), cll(obs), clist(final)))
         wmeta.append((f0, ops))
@@ -713,10 +718,11 @@ def run(ctx):
     rcases, rmeta, dcases, dmeta = [], [], [], []
     for i in range(ctx.pick(500, 8000)):
         f = rand_file(rng)
-        ops = gen_rops(rng, rng.randrange(1, 12))
+        edge = gen_edge_steps(rng) if i % 3 == 0 else None
+        ops = steps_to_rops(edge) if edge else gen_rops(rng, rng.randrange(1, 12))
         rcases.append("(%s, [%s], %s)" % (clist(f), "; ".join(c_rop(o) for o in ops), cll(run_r(f, ops))))
         rmeta.append((f, ops))
-        ops = gen_dops(rng, rng.randrange(1, 12))
+        ops = steps_to_dops(edge) if edge else gen_dops(rng, rng.randrange(1, 12))
         dcases.append("(%s, [%s], %s)" % (clist(f), "; ".join(c_dop(o) for o in ops), cll(run_d(f, ops))))
         dmeta.append((f, ops))
         ctx.count(2, key=("rd", i) if f else None, bucket="reader-seq")
@@ -967,6 +973,20 @@ def oracle(ctx):
         for key, desc, observed, expected in seek_block_case(c):
             ctx.violation(key, c, desc, observed=observed, expected=expected)
 
+    # (f) the edge of a bounded block: byte aligned with exactly 0 / 1..8 / negative bits remaining, followed by byte-string,
+    #     bit-array, wide-integer and exp-Golomb primitives -- writer (closed-form statement), then read back with both readers;
+    #     and the same state reached by the readers on arbitrary data
+    for i in range(ctx.pick(1500, 20000)):
+        steps = gen_edge_steps(rng)
+        ctx.count(1, key=("edge", i), bucket="block-edge-write-readback")
+        for key, desc, observed, expected in edge_case(steps):
+            ctx.violation(key, {"edge_steps": [list(st) if st[0] != "op" else ["op", _j([st[1]])[0]] for st in steps]}, desc, observed=observed, expected=expected)
+        c = gen_edge_read_case(rng)
+        ctx.count(1, key=("edger", i), bucket="block-edge-read")
+        for key, desc, observed, expected in edge_read_case(c):
+            ctx.violation(key, {"edge_read": c}, desc, observed=observed, expected=expected)
+
+
 
 def gen_seek_case(rng, who):
     skip = rng.randrange(0, 12)
@@ -1120,6 +1140,363 @@ def seek_block_case(c):
     return fails
 
 
+# ------------------------------------------------------------------ block-edge scenarios
+# A scenario is a list of steps  ("begin", len) | ("op", <write op>) | ("end",)  -- see gen_edge_steps.
+def op_bits(op):
+    """the bits a write op stands for, computed without the implementation"""
+    k = op[0]
+    if k == "bit":
+        return [int(op[1])]
+    if k == "nbits":
+        return [int(ch) for ch in format(op[2], "0%db" % op[1])] if op[1] > 0 else []
+    if k == "uint_lit":
+        return [int(ch) for ch in format(op[2], "0%db" % (8 * op[1]))] if op[1] > 0 else []
+    if k == "bitarray":
+        return [int(b) for b in op[2]] + [0] * (op[1] - len(op[2]))
+    if k == "bytes":
+        return [(b >> (7 - j)) & 1 for b in list(op[2]) + [0] * (op[1] - len(op[2])) for j in range(8)]
+    if k == "uint":
+        out = []
+        for ch in bin(op[1] + 1)[3:]:
+            out += [0, int(ch)]
+        return out + [1]
+    if k == "sint":
+        return op_bits(("uint", abs(op[1]))) + ([int(op[1] < 0)] if op[1] != 0 else [])
+    raise ValueError(k)
+
+
+def gen_edge_value_op(rng, room):
+    """a write op of >= 1 byte (mostly); `room` = bits left in the block (may be <= 0)"""
+    style = rng.randrange(5)  # 0,1: all ones (legal past the end); 2: all zero; 3,4: random
+    k = rng.randrange(10)
+    nby = rng.randrange(1, 4)
+    if k < 4:
+        ln = rng.randrange(0, nby + 1) if style != 2 else nby
+        val = [255 if style < 2 else (0 if style == 2 else rng.randrange(256)) for _ in range(ln)]
+        if style < 2:
+            val, ln = [255] * nby, nby  # zero padding would be 0 bits
+        return ("bytes", nby, val)
+    if k < 6:
+        n = 8 * nby + rng.randrange(0, 3)
+        ln = n if style < 2 else rng.randrange(0, n + 1)
+        return ("bitarray", n, [True if style < 2 else (False if style == 2 else rng.random() < 0.5) for _ in range(ln)])
+    if k == 6:
+        n = rng.randrange(8, 26)
+        return ("nbits", n, (1 << n) - 1 if style < 2 else (0 if style == 2 else rng.randrange(1 << n)))
+    if k == 7:
+        return ("uint_lit", nby, (1 << (8 * nby)) - 1 if style < 2 else (0 if style == 2 else rng.randrange(1 << (8 * nby))))
+    if k == 8:
+        return ("uint", 0 if style < 2 else rng.randrange(0, 600))
+    return ("sint", 0 if style < 2 else rng.randrange(-300, 300))
+
+
+def gen_edge_steps(rng):
+    """Heavy weight on: inside a bounded block, byte aligned, exactly 0 (also 1..8, also negative) bits remaining,
+    followed by a byte-string / bit-array / wide integer / exp-Golomb primitive; zero-length blocks; blocks filled
+    exactly by earlier writes; a second block right after bounded_block_end; a marker byte after everything."""
+    steps = []
+    skip = rng.choice([0, 0, 0, 8, 8, 16, rng.randrange(0, 16)])
+    if skip:
+        steps.append(("op", ("nbits", skip, rng.randrange(1 << skip))))
+    pos = skip
+    for blk in range(rng.choice([1, 1, 2, 3])):
+        r = rng.randrange(20)
+        if r < 6:
+            ln = 0
+        elif r < 10:
+            ln = rng.choice([8, 16, 24])
+        elif r < 13:
+            ln = rng.randrange(1, 9)
+        elif r < 15:
+            ln = -rng.randrange(1, 10)
+        else:
+            ln = rng.randrange(0, 30)
+        steps.append(("begin", ln))
+        room = max(ln, 0)
+        r = rng.randrange(20)
+        fill = room if r < 12 else (max(room - rng.randrange(1, 9), 0) if r < 17 else room + rng.randrange(1, 4))
+        left = ln
+        todo = fill
+        while todo > 0:
+            if todo >= 8 and left >= 8 and pos % 8 == 0 and rng.random() < 0.5:
+                steps.append(("op", ("bytes", 1, [rng.randrange(256)])))
+                n = 8
+            elif left >= 1:
+                n = rng.randrange(1, min(todo, left, 9) + 1)
+                steps.append(("op", ("nbits", n, rng.randrange(1 << n))))
+            else:
+                n = todo
+                steps.append(("op", ("nbits", n, (1 << n) - 1)))  # past the end: 1s only
+            pos += min(n, max(left, 0))
+            left -= n
+            todo -= n
+        for _ in range(rng.choice([1, 1, 2])):
+            op = gen_edge_value_op(rng, left)
+            steps.append(("op", op))
+            n = len(op_bits(op))
+            pos += min(n, max(left, 0))
+            left -= n
+        steps.append(("end",))
+        if rng.random() < 0.3:
+            op = ("nbits", rng.randrange(1, 9), 0)
+            op = (op[0], op[1], rng.randrange(1 << op[1]))
+            steps.append(("op", op))
+            pos += op[1]
+    steps.append(("op", ("bytes", 1, [rng.randrange(256)])) if rng.random() < 0.5 else ("op", ("nbits", 8, rng.randrange(256))))
+    return steps
+
+
+def edge_reference(steps):
+    """Property statement for the writer: per step (exception, tell, bits_remaining, return) and the bits in the file.
+    Inside a block with r bits left an op with bits L is accepted iff L[max(r,0):] is all 1s; then only L[:max(r,0)]
+    reaches the stream, tell() advances by that many and bits_remaining drops by len(L).  A 0 past the end raises
+    ValueError (everything before it has been processed).  Evaluation stops at the first ValueError."""
+    out, rem, log = [], None, []
+    for st in steps:
+        exc, ret = None, None
+        if st[0] == "begin":
+            rem = st[1]
+        elif st[0] == "end":
+            ret = max(0, rem)
+            rem = None
+        else:
+            L = op_bits(st[1])
+            if rem is None:
+                out += L
+            else:
+                room = max(rem, 0)
+                bad = [j for j in range(room, len(L)) if L[j] == 0]
+                if bad:
+                    out += L[:room]
+                    rem -= bad[0] + 1
+                    exc = "ValueError"
+                else:
+                    out += L[:room]
+                    rem -= len(L)
+        log.append((exc, len(out), rem, ret))
+        if exc:
+            break
+    return out, log
+
+
+def edge_case(steps):
+    """Runs the scenario on the real writer, then reads it back with both readers.  Returns failures
+    [(key, description, observed, expected)]."""
+    bio, OutOfRangeError, eg, dio, UEOS_, State, bitarray = I()
+    tob = bio.to_bit_offset
+    steps = [tuple(st) if st[0] != "op" else ("op", tuple(st[1])) for st in steps]
+    out, log = edge_reference(steps)
+    fails = []
+    f = io.BytesIO()
+    w = bio.BitstreamWriter(f)
+    for i, (st, (exc, pos, rem, ret)) in enumerate(zip(steps, log)):
+        got_exc, got_ret = None, None
+        try:
+            if st[0] == "begin":
+                w.bounded_block_begin(st[1])
+            elif st[0] == "end":
+                got_ret = w.bounded_block_end()
+            else:
+                getattr(w, "write_" + st[1][0])(*_wargs(st[1], bitarray))
+        except Exception as e:  # noqa
+            got_exc = "OutOfRangeError" if isinstance(e, OutOfRangeError) else type(e).__name__
+        obs = (got_exc, tob(*w.tell()), w.bits_remaining, got_ret)
+        if obs != (exc, pos, rem, ret):
+            what = st[1][0] if st[0] == "op" else st[0]
+            fails.append(("bounded-block-write_%s" % what,
+                          "step %d %r: inside a bounded block bits past the end must be dropped if 1 and rejected (ValueError) if 0; tell() must not "
+                          "pass the block end; bits_remaining must drop by the full length" % (i, st),
+                          {"exception": obs[0], "tell": obs[1], "bits_remaining": obs[2], "returned": obs[3]},
+                          {"exception": exc, "tell": pos, "bits_remaining": rem, "returned": ret}))
+            return fails
+    w.flush()
+    data = list(bytearray(f.getvalue()))
+    exp_bytes = []
+    padded = out + [0] * (-len(out) % 8)
+    for j in range(0, len(padded), 8):
+        exp_bytes.append(int("".join(map(str, padded[j:j + 8])), 2))
+    if data != exp_bytes:
+        fails.append(("bounded-block-file-content", "the file must hold exactly the bits inside the blocks (zero padded)", data, exp_bytes))
+        return fails
+    if log[-1][0]:
+        return fails  # ended with the expected ValueError: nothing to read back
+    # ---- read back with both readers: same values, same positions, same counters
+    r = bio.BitstreamReader(io.BytesIO(f.getvalue()))
+    dec_ok = all(st[1] >= 0 for st in steps if st[0] == "begin")
+    d = new_d(data) if dec_ok else None
+    inblk = False
+    for i, (st, (exc, pos, rem, ret)) in enumerate(zip(steps, log)):
+        try:
+            if st[0] == "begin":
+                r.bounded_block_begin(st[1])
+                inblk = True
+                if d is not None:
+                    d["bits_left"] = st[1]
+                continue
+            if st[0] == "end":
+                n = r.bounded_block_end()
+                inblk = False
+                if n != ret:
+                    fails.append(("bounded-block-reader-end", "BitstreamReader.bounded_block_end() differs from the writer's", n, ret))
+                    return fails
+                continue
+            op = st[1]
+            exp = _expected(op, bitarray)
+            got = _rread(r, op)
+            if got != exp or tob(*r.tell()) != pos or r.bits_remaining != rem:
+                fails.append(("bounded-block-readback-bitstream-reader",
+                              "step %d %r: BitstreamReader must read back what the writer accepted, at the writer's position and counter" % (i, st),
+                              [repr(got), tob(*r.tell()), r.bits_remaining], [repr(exp), pos, rem]))
+                return fails
+            if d is not None:
+                if inblk:
+                    if op[0] == "uint":
+                        gd = dio.read_uintb(d)
+                    elif op[0] == "sint":
+                        gd = dio.read_sintb(d)
+                    else:
+                        bits = [dio.read_bitb(d) for _ in range(len(op_bits(op)))]
+                        gd = _from_bits(op, bits)
+                else:
+                    gd = _dread(dio, d, op)
+                if gd != exp or tob(*dio.tell(d)) != pos or (inblk and d["bits_left"] != max(0, rem)):
+                    fails.append(("bounded-block-readback-decoder-reader",
+                                  "step %d %r: the decoder's reader must read back what the writer accepted, at the writer's position" % (i, st),
+                                  [repr(gd), tob(*dio.tell(d)), d["bits_left"]], [repr(exp), pos, max(0, rem) if inblk else None]))
+                    return fails
+        except Exception as e:  # noqa
+            fails.append(("bounded-block-readback-exception", "step %d %r: reading back raised" % (i, st), repr(e), "no exception"))
+            return fails
+    return fails
+
+
+def _from_bits(op, bits):
+    k = op[0]
+    if k == "bit":
+        return bits[0]
+    if k in ("nbits", "uint_lit"):
+        return int("".join(map(str, bits)) or "0", 2)
+    if k == "bitarray":
+        return bits
+    return [int("".join(map(str, bits[j:j + 8])), 2) for j in range(0, len(bits), 8)]
+
+
+def edge_read_case(c):
+    """Reader-only: random data, a block positioned so that exactly 0 / 1..8 / negative bits remain, then a wide read.
+    Expected: the file's bits up to the block end, then 1s; tell() stops at the block end; the counters drop by the
+    full amount (BitstreamReader) / saturate at 0 (decoder, lengths >= 0)."""
+    bio, OutOfRangeError, eg, dio, UEOS_, State, bitarray = I()
+    tob = bio.to_bit_offset
+    data, skip, ln, adv, op = c["data"], c["skip"], c["length"], c["advance"], tuple(c["op"])
+    allbits = [(b >> (7 - j)) & 1 for b in data for j in range(8)]
+    room = max(ln, 0)
+    pos0 = skip + min(adv, room)
+    rem0 = ln - adv
+    left = max(rem0, 0)
+    n = None if len(op) < 2 else (8 * op[1] if op[0] in ("bytes", "uint_lit") else op[1])
+    stream = allbits[pos0:pos0 + left] + [1] * 4000
+    if op[0] in ("uint", "sint"):
+        j, value = 0, 1
+        while stream[j] == 0:
+            value = 2 * value + stream[j + 1]
+            j += 2
+        j += 1
+        value -= 1
+        if op[0] == "sint" and value != 0:
+            value = -value if stream[j] else value
+            j += 1
+        n, exp = j, value
+    else:
+        exp = _from_bits(op, stream[:n])
+    pos1, rem1 = pos0 + min(n, left), rem0 - n
+    fails = []
+    try:
+        r = bio.BitstreamReader(io.BytesIO(bytes(bytearray(data))))
+        r.read_nbits(skip)
+        r.bounded_block_begin(ln)
+        for _ in range(adv):
+            r.read_bit()
+        got = _rread(r, op)
+        obs = [got, tob(*r.tell()), r.bits_remaining]
+        if obs != [exp, pos1, rem1]:
+            fails.append(("bounded-block-read_%s" % op[0], "BitstreamReader: bits past the end of the block read as 1, tell() stops at the end, bits_remaining drops by the full length",
+                          repr(obs), repr([exp, pos1, rem1])))
+        if ln >= 0:
+            d = new_d(data)
+            dio.read_nbits(d, skip)
+            d["bits_left"] = ln
+            for _ in range(adv):
+                dio.read_bitb(d)
+            if op[0] == "uint":
+                gd = dio.read_uintb(d)
+            elif op[0] == "sint":
+                gd = dio.read_sintb(d)
+            else:
+                gd = _from_bits(op, [dio.read_bitb(d) for _ in range(n)])
+            obs = [gd, tob(*dio.tell(d)), d["bits_left"]]
+            if obs != [exp, pos1, max(0, rem1)]:
+                fails.append(("decoder-bounded-block-read_%s" % op[0], "decoder reader: bits past the end of the block read as 1, tell() stops at the end",
+                              repr(obs), repr([exp, pos1, max(0, rem1)])))
+    except Exception as e:  # noqa
+        fails.append(("bounded-block-read-exception", "a read inside a bounded block raised", repr(e), "no exception"))
+    return fails
+
+
+def gen_edge_read_case(rng):
+    skip = rng.choice([0, 0, 8, 8, 16, rng.randrange(0, 16)])
+    r = rng.randrange(20)
+    ln = 0 if r < 6 else (rng.choice([8, 16, 24]) if r < 11 else (rng.randrange(1, 9) if r < 14 else (-rng.randrange(1, 10) if r < 16 else rng.randrange(0, 30))))
+    room = max(ln, 0)
+    r = rng.randrange(20)
+    adv = room if r < 12 else (max(room - rng.randrange(1, 9), 0) if r < 17 else room + rng.randrange(1, 4))
+    k = rng.randrange(8)
+    nby = rng.randrange(1, 4)
+    op = [("bytes", nby), ("bytes", nby), ("bitarray", 8 * nby + rng.randrange(3)), ("bitarray", 8 * nby), ("nbits", rng.randrange(8, 26)),
+          ("uint_lit", nby), ("uint",), ("sint",)][k]
+    nbytes = (skip + room) // 8 + 2
+    style = rng.randrange(3)
+    data = [rng.randrange(256) if style else rng.choice([0, 255]) for _ in range(nbytes)]
+    return {"data": data, "skip": skip, "length": ln, "advance": adv, "op": list(op)}
+
+
+def steps_to_wops(steps):
+    return [st[1] if st[0] == "op" else st for st in steps]
+
+
+def steps_to_rops(steps):
+    out = []
+    for st in steps:
+        if st[0] != "op":
+            out.append(st)
+        else:
+            op = st[1]
+            out.append((op[0],) if op[0] in ("bit", "uint", "sint") else (op[0], op[1]))
+    return out
+
+
+def steps_to_dops(steps):
+    out, inblk = [], False
+    for st in steps:
+        if st[0] == "begin":
+            out.append(("setleft", st[1]))
+            inblk = True
+        elif st[0] == "end":
+            out.append(("flush",))
+            inblk = False
+        else:
+            op = st[1]
+            if not inblk:
+                out.append({"bit": ("bit",), "uint": ("uint",), "sint": ("sint",), "uint_lit": ("uint_lit", op[1]) if len(op) > 1 else None,
+                            "bytes": ("nbits", 8 * op[1]) if len(op) > 1 else None}.get(op[0]) or ("nbits", op[1]))
+            elif op[0] == "uint":
+                out.append(("uintb",))
+            elif op[0] == "sint":
+                out.append(("sintb",))
+            else:
+                out += [("bitb",)] * min(len(op_bits(op)), 12)
+    return out
+
+
 def _try_bits(r, n):
     out = []
     try:
@@ -1261,6 +1638,15 @@ def replay(ctx, data):
         except Exception as e:  # noqa
             print("raised", repr(e))
             bad = True
+    elif isinstance(inp, dict) and ("edge_steps" in inp or "edge_read" in inp):
+        if "edge_steps" in inp:
+            steps = [tuple(st) if st[0] != "op" else ("op", _unj([st[1]])[0]) for st in inp["edge_steps"]]
+            fails = edge_case(steps)
+        else:
+            fails = edge_read_case(inp["edge_read"])
+        for k, desc, observed, expected in fails:
+            print(" -", k, ":", desc, "| observed", observed, "| expected", expected)
+        bad = bool(fails)
     elif isinstance(inp, dict) and inp.get("who") in ("writer", "reader") and "target" in inp:
         fails = seek_block_case(inp)
         for k, desc, observed, expected in fails:
